@@ -29,7 +29,7 @@ ASSUMPTIONS = [
     "reading chosen: scatter=False always uses beamline(False)+kinematic('tof') whatever the origin",
     'value tolerance 1e-9 relative (fingerprints differ by >= 3e-2)',
 ]
-REQUIRED_CLASSES = ['aligned_geometry_value', 'precision_float32', 'precision_float64', 'precision_int64', 'value', 'runtime_error', 'mode_ambiguous', 'direct_inelastic', 'indirect_inelastic', 'supplied_precedence', 'nan_result']
+REQUIRED_CLASSES = ['unaligned_coords', 'aligned_geometry_value', 'precision_float32', 'precision_float64', 'precision_int64', 'value', 'runtime_error', 'mode_ambiguous', 'direct_inelastic', 'indirect_inelastic', 'supplied_precedence', 'nan_result']
 BOUND = {
     'quick': '4 origins x 13 targets x 2 scatter x 2048 subsets, DataArray',
     'thorough': '4 origins x 19 targets x 2 scatter x 2048 subsets x {DataArray, Dataset}, plus origin-coordinate-absent bit for origin tof',
@@ -170,6 +170,10 @@ def cases(tier):
                 for scatter in (True, False):
                     for hi in range(2 ** len(HI)):
                         out.append({'origin': origin, 'target': target, 'scatter': scatter, 'container': cont, 'hi': hi, 'origin_present': True})
+                        # the same coordinates flagged unaligned (what slicing a bigger array leaves behind): they are
+                        # present on the data all the same
+                        if cont == 'DataArray':
+                            out.append({'origin': origin, 'target': target, 'scatter': scatter, 'container': cont, 'hi': hi, 'origin_present': True, 'rep': 'unaligned'})
     # precision / call-history family: same conversion in single precision first, then in double (and integer origin
     # coordinates, single-precision energies): the outcome class and the value may not depend on the dtype or on
     # what was converted before (module state reset by reloading the kernel module at the start of each case)
@@ -356,6 +360,11 @@ def run_case(case, rec):
         present = hi_set + [n for k, n in enumerate(LO) if lo >> k & 1]
         rec.states += 1
         data = _make(origin, present, cont, origin_present, aux)
+        if case.get('rep') == 'unaligned':
+            for n in list(data.coords):
+                if n not in data.dims:
+                    data.coords.set_aligned(n, False)
+            rec.cls('unaligned_coords')
         snap = data.copy(deep=True)
         have = set(present) | ({origin} if origin_present else set()) | ({'pulse_time', 'sample_rotation', 'u_matrix', 'b_matrix'} if aux else set())
         mode = dv.energy_mode(origin, target, have)
